@@ -86,6 +86,8 @@ func buildPGPClear(env *Env, v Variant) ([]*Artifact, error) {
 		d5 := append([]byte("Prepended: outside\n"), s...)
 		a.Semantic = append(a.Semantic, SemMut{Class: "insert-before-container", Site: "before-header:text-line", Data: d5, Assert: false, Why: "text before the cleartext header is outside the framework; consumer dependent"})
 	}
+	// marker lines of the framework repeated at every line boundary (psmarkers.go)
+	a.Semantic = append(a.Semantic, clearsignMarkerFamily(s, cs)...)
 	return []*Artifact{a}, nil
 }
 
